@@ -4,6 +4,16 @@ import json, os
 V = os.path.dirname(os.path.dirname(os.path.abspath(__file__)))
 ALL = ["C%02d" % i for i in range(1, 21)]
 CHECKS = {
+ "C15": dict(
+   text="Hostile-input generation defined by the specifications: TLC enumerates every string of length <= 4/5 over 13 JSON structure characters, every bracketed / Unix-path string of length <= 5/6 over 8 address characters and every candidate encoding of length <= 4 over 14 symbols (CodecGen.tla); the check adds every prefix of valid JSON documents with every key, and structured mutations (nesting to depth 64, strings ending in an escape, corrupted / truncated base-64 and serialised addresses, Unix paths around the 108-byte limit, digit runs to 5000 characters, key / passphrase files with over-long, unterminated and NUL-containing lines, hostile argument vectors). Every input is handed to the real parser in an exact-size heap allocation under ASan/UBSan; TLC validates each call's documented value range (pointer inside [buf, end], outlen <= inlen/4*3, verdict in the documented set) and, where C16-C18 define it, the answer (CodecTrace, ParsenumTrace, GetoptTrace).",
+   note="The memory-safety verdict itself comes from ASan/UBSan on the generated executions (observed, not proved); termination by per-run timeouts; no host-name address forms; JSON depth <= 64.",
+   technique="TLA+-defined hostile input spaces enumerated by TLC + sanitizer-instrumented replay + trace validation of value ranges against the TLA+ specs",
+   design="6/C15"),
+ "C17": dict(
+   text="RFC 4648 base-64 (encode, decode, exact well-formedness), hexadecimal and the big-/little-endian byte orders are TLA+ definitions (specs/text/Codec.tla); TLC enumerates every byte string of length <= 4 over 7 byte values and every candidate encoding of length <= 4 over 14 symbols, all of which (plus random longer strings with a corrupted and a truncated encoding each, every width / order / buffer offset 0..15 of the endian routines, numeric IPv4 / IPv6 and Unix-path addresses with print-resolve, serialise-deserialise and duplicate round trips, and generated valid JSON objects with escapes, \\u names and white space everywhere) are run through the real code; TLC validates every call against the definitions (acceptance exact; JSON: first top-level member whose decoded name equals the key, \\u names never match).",
+   note="Address literals -> bytes by Python's ipaddress module and the JSON generator's own member list are the encoder side of the oracle; numeric addresses only.",
+   technique="TLA+ functional specification + exhaustive enumeration of small input spaces by TLC + trace validation of every call",
+   design="6/C17"),
  "C16": dict(
    text="The verdict of PARSENUM / PARSENUM_EX is a TLA+ definition (specs/text/Parsenum.tla over BigNat.tla: grammar per base, exact natural-number value, in-bounds-and-in-type test, EINVAL / ERANGE); floats (ParsenumFloat.tla: the numeral as an exact rational, result within half a unit in the last place) and sizes (Humansize.tla: language and truncating 2-3 digit format) likewise. TLC enumerates the complete structured numeral space (white space x sign x base prefix x digit class at the type limits and at the requested bounds +/- 1 x trailing junk x trailing flag x base x bounds shape x target type); every point is concretised and parsed by every applicable macro form with intmax_t and uintmax_t bounds, together with float/double numerals, sizes at every power of 1000 +/- 1 and the token-pair language of humansize_parse; TLC validates every call's verdict and value against the specification.",
    note="Bounds for signed targets lie inside the target type; floats in the normal range, C locale; big-integer arithmetic for floats and sizes through java.math.BigInteger (integers in pure TLA+).",
